@@ -274,45 +274,45 @@ Section Validate.
     | None => Panic
     end.
 
-  (** array phase *)
-  Definition arrays_phase (e : env) (v : vfun) (l : loc) (s : schema) (items : list gv) (a0 : anns) : res anns :=
+  (** array phase: items part (draft switch), contains part, counts, unevaluatedItems *)
+  Definition items_part (e : env) (v : vfun) (l : loc) (s : schema) (items : list gv) (a0 : anns) : res anns :=
     let len := length items in
-    a1 <-
-      (if e_draft7 e then
-         match s_itemsArray s with
-         | Some ia =>
-             zip_items v items (list_locs l (lit "items"%lit) ia) ;;;
-             let a := noteEndIndex (Nat.min (length ia) len) a0 in
-             match s_additionalItems s with
-             | Some ai =>
-                 each_item v (skipn (length ia) items) (one_loc l (lit "additionalItems"%lit)) ai ;;;
-                 Ok (setAllItems a)
-             | None => Ok a
-             end
-         | None =>
-             match s_items s with
-             | Some it => each_item v items (one_loc l (lit "items"%lit)) it ;;; Ok (setAllItems a0)
-             | None => Ok a0
-             end
-         end
-       else
-         let pi := opt_list (s_prefixItems s) in
-         zip_items v items (list_locs l (lit "prefixItems"%lit) pi) ;;;
-         let a := noteEndIndex (Nat.min (length pi) len) a0 in
-         match s_items s with
-         | Some it => each_item v (skipn (length pi) items) (one_loc l (lit "items"%lit)) it ;;; Ok (setAllItems a)
-         | None => Ok a
-         end) ;;
-    na <-
-      (match s_contains s with
-       | Some c =>
-           na <- contains_loop v 0 items (one_loc l (lit "contains"%lit)) c 0 a1 ;;
-           (if Nat.eqb (fst na) 0 && (match s_minContains s with None => true | Some m => Z.gtb m 0 end)
-            then Err else Ok na)
-       | None => Ok (0%nat, a1)
-       end) ;;
-    let nContains := Z.of_nat (fst na) in
-    let a2 := snd na in
+    if e_draft7 e then
+      match s_itemsArray s with
+      | Some ia =>
+          zip_items v items (list_locs l (lit "items"%lit) ia) ;;;
+          let a := noteEndIndex (Nat.min (length ia) len) a0 in
+          match s_additionalItems s with
+          | Some ai =>
+              each_item v (skipn (length ia) items) (one_loc l (lit "additionalItems"%lit)) ai ;;;
+              Ok (setAllItems a)
+          | None => Ok a
+          end
+      | None =>
+          match s_items s with
+          | Some it => each_item v items (one_loc l (lit "items"%lit)) it ;;; Ok (setAllItems a0)
+          | None => Ok a0
+          end
+      end
+    else
+      let pi := opt_list (s_prefixItems s) in
+      zip_items v items (list_locs l (lit "prefixItems"%lit) pi) ;;;
+      let a := noteEndIndex (Nat.min (length pi) len) a0 in
+      match s_items s with
+      | Some it => each_item v (skipn (length pi) items) (one_loc l (lit "items"%lit)) it ;;; Ok (setAllItems a)
+      | None => Ok a
+      end.
+
+  Definition contains_part (v : vfun) (l : loc) (s : schema) (items : list gv) (a1 : anns) : res (nat * anns) :=
+    match s_contains s with
+    | Some c =>
+        na <- contains_loop v 0 items (one_loc l (lit "contains"%lit)) c 0 a1 ;;
+        (if Nat.eqb (fst na) 0 && (match s_minContains s with None => true | Some m => Z.gtb m 0 end)
+         then Err else Ok na)
+    | None => Ok (0%nat, a1)
+    end.
+
+  Definition array_counts (s : schema) (items : list gv) (nContains : Z) : res unit :=
     (match s_minContains s, s_contains s with
      | Some m, Some _ => guard (negb (Z.ltb nContains m))
      | _, _ => Ok tt
@@ -321,9 +321,11 @@ Section Validate.
      | Some m, Some _ => guard (negb (Z.gtb nContains m))
      | _, _ => Ok tt
      end) ;;;
-    (match s_minItems s with Some m => guard (negb (Z.ltb (Z.of_nat len) m)) | None => Ok tt end) ;;;
-    (match s_maxItems s with Some m => guard (negb (Z.gtb (Z.of_nat len) m)) | None => Ok tt end) ;;;
-    check_unique s items ;;;
+    (match s_minItems s with Some m => guard (negb (Z.ltb (Z.of_nat (length items)) m)) | None => Ok tt end) ;;;
+    (match s_maxItems s with Some m => guard (negb (Z.gtb (Z.of_nat (length items)) m)) | None => Ok tt end) ;;;
+    check_unique s items.
+
+  Definition uneval_items_part (v : vfun) (l : loc) (s : schema) (items : list gv) (a2 : anns) : res anns :=
     match s_unevaluatedItems s with
     | Some u =>
         if allItems a2 then Ok a2
@@ -331,25 +333,32 @@ Section Validate.
     | None => Ok a2
     end.
 
-  (** object phase *)
-  Definition objects_phase (e : env) (v : vfun) (l : loc) (s : schema) (inst : gv) (m : list (str * gv)) (a0 : anns)
-    : res anns :=
+  Definition arrays_phase (e : env) (v : vfun) (l : loc) (s : schema) (items : list gv) (a0 : anns) : res anns :=
+    a1 <- items_part e v l s items a0 ;;
+    na <- contains_part v l s items a1 ;;
+    array_counts s items (Z.of_nat (fst na)) ;;;
+    uneval_items_part v l s items (snd na).
+
+  (** object phase: properties / patternProperties / additionalProperties, then names and
+      counts, then dependencies (draft switch), then unevaluatedProperties *)
+  Definition props_part (e : env) (v : vfun) (l : loc) (s : schema) (m : list (str * gv)) : res (list str) :=
     ev1 <- props_loop v m (map_locs l (lit "properties"%lit) (opt_list (s_properties s))) [] ;;
     ev2 <-
       (match s_patternProperties s with
        | Some ((_ :: _) as pp) => pattern_loop v m (map_locs l (lit "patternProperties"%lit) pp) ev1
        | _ => Ok ev1
        end) ;;
-    ev3 <-
-      (match s_additionalProperties s with
-       | Some ap =>
-           let isFalsy := match s_not ap with Some n => is_zero_schema n | None => false end in
-           if isFalsy then
-             (if forallb (fun kv => mem_str (fst kv) ev2) m then Ok ev2 else Err)
-           else additional_loop v m (one_loc l (lit "additionalProperties"%lit)) ap ev2
-       | None => Ok ev2
-       end) ;;
-    let a1 := noteProperties ev3 a0 in
+    match s_additionalProperties s with
+    | Some ap =>
+        let isFalsy := match s_not ap with Some n => is_zero_schema n | None => false end
+                       && negb (e_draft7 e && nonempty (s_ref ap)) in
+        if isFalsy then
+          (if forallb (fun kv => mem_str (fst kv) ev2) m then Ok ev2 else Err)
+        else additional_loop v m (one_loc l (lit "additionalProperties"%lit)) ap ev2
+    | None => Ok ev2
+    end.
+
+  Definition object_counts (v : vfun) (l : loc) (s : schema) (m : list (str * gv)) : res unit :=
     (match s_propertyNames s with
      | Some pn => names_loop v m (one_loc l (lit "propertyNames"%lit)) pn
      | None => Ok tt
@@ -357,20 +366,31 @@ Section Validate.
     let n := Z.of_nat (length m) in
     (match s_minProperties s with Some k => guard (negb (Z.ltb n k)) | None => Ok tt end) ;;;
     (match s_maxProperties s with Some k => guard (negb (Z.gtb n k)) | None => Ok tt end) ;;;
-    (match s_required s with Some req => guard (has_all m req) | None => Ok tt end) ;;;
-    a2 <-
-      (if e_draft7 e then
-         dep_required m (opt_list (s_dependencyStrings s)) ;;;
-         dep_schemas v inst m (map_locs l (lit "dependencies"%lit) (opt_list (s_dependencySchemas s))) a1
-       else
-         dep_required m (opt_list (s_dependentRequired s)) ;;;
-         dep_schemas v inst m (map_locs l (lit "dependentSchemas"%lit) (opt_list (s_dependentSchemas s))) a1) ;;
+    (match s_required s with Some req => guard (has_all m req) | None => Ok tt end).
+
+  Definition deps_part (e : env) (v : vfun) (l : loc) (s : schema) (inst : gv) (m : list (str * gv)) (a1 : anns) : res anns :=
+    if e_draft7 e then
+      dep_required m (opt_list (s_dependencyStrings s)) ;;;
+      dep_schemas v inst m (map_locs l (lit "dependencies"%lit) (opt_list (s_dependencySchemas s))) a1
+    else
+      dep_required m (opt_list (s_dependentRequired s)) ;;;
+      dep_schemas v inst m (map_locs l (lit "dependentSchemas"%lit) (opt_list (s_dependentSchemas s))) a1.
+
+  Definition uneval_props_part (v : vfun) (l : loc) (s : schema) (m : list (str * gv)) (a2 : anns) : res anns :=
     match s_unevaluatedProperties s with
     | Some u =>
         if allProps a2 then Ok a2
         else uneval_props v m (one_loc l (lit "unevaluatedProperties"%lit)) u a2 ;;; Ok (setAllProps a2)
     | None => Ok a2
     end.
+
+  Definition objects_phase (e : env) (v : vfun) (l : loc) (s : schema) (inst : gv) (m : list (str * gv)) (a0 : anns)
+    : res anns :=
+    ev3 <- props_part e v l s m ;;
+    let a1 := noteProperties ev3 a0 in
+    object_counts v l s m ;;;
+    a2 <- deps_part e v l s inst m a1 ;;
+    uneval_props_part v l s m a2.
 
   (** everything after the stack push and the stripping of pointers/interfaces *)
   Definition validate_body (e : env) (v : vfun) (stack : list loc) (inst : gv) (l : loc) (s : schema) : res anns :=
